@@ -36,6 +36,8 @@ type Ctx struct {
 	cgVTA    *callgraph.Graph
 	cgCHA    *callgraph.Graph
 	Stats    map[string]int
+	csCache  map[*ssa.Function]*callSiteInfo
+	bndCache map[string]*bndEngine
 }
 
 // Load loads and type-checks the module from source and builds SSA. Any type error is fatal:
